@@ -32,7 +32,7 @@ func buildFixtures() (*Prog, *ssa.Package, error) {
 		return nil, nil, err
 	}
 	p := &Prog{Repo: "", Fset: fset, Pkgs: map[string]*packages.Package{"rcproxy/fx": {PkgPath: "rcproxy/fx", Types: pkg}},
-		SSA: spkg.Prog, SPkgs: map[string]*ssa.Package{"rcproxy/fx": spkg}, byName: map[string]*ssa.Function{}, implCache: map[string][]*ssa.Function{}}
+		SSA: spkg.Prog, SPkgs: map[string]*ssa.Package{"rcproxy/fx": spkg}, byName: map[string]*ssa.Function{}, implCache: map[string][]*ssa.Function{}, anchors: map[*ssa.Function]bool{}}
 	for fn := range ssautil.AllFunctions(spkg.Prog) {
 		if fn.Blocks != nil && fn.Pkg == spkg {
 			p.Funcs = append(p.Funcs, fn)
@@ -61,6 +61,9 @@ func runControls(pd *PropDef) (out []Ob) {
 		add("fixtures build", false, err.Error())
 		return
 	}
+	saveProg, saveInl := curProg, inlining
+	curProg, inlining = p, false
+	defer func() { curProg, inlining = saveProg, saveInl }()
 	c := &Ctx{P: p, counted: map[string]int{}, funcs: map[string]bool{}, rule: &RuleInfo{ID: "control"}}
 	fn := func(name string) *ssa.Function {
 		f := p.byName["rcproxy/fx."+name]
